@@ -3,6 +3,8 @@ CONSTANTS
   Classes <- Classes4
   Outs <- OutsC05
   Durs = {0}
+  CDurs <- ZeroDur
+  EDurs <- ZeroDur
   Rets <- RetsAll
   Advs <- AdvsExact
   Decs <- DecsAll
